@@ -954,7 +954,9 @@ class AsyncIteratorQueue(IteratorQueue[_ValueT], AsyncIterableQueue[_ValueT]):
     if not isinstance(iterator, AsyncIterator):
       iterator = aiter(iterator)
     self._start_enqueue()
-    while True:
+    # Same as `enqueue_from_iterator`: stop pulling once enqueueing is done (a stop
+    # request or another enqueuer's failure), `put` drops the values anyway.
+    while not self.enqueue_done:
       try:
         value = await asyncio.wait_for(anext(iterator), self.timeout)
         await self.async_put(value)
